@@ -17,6 +17,8 @@ From AC.Model Require Import Base.
 Record mspec := mkM {
   m_ranking : bool;   (* produces a column named *_measure (chi2_measure does not) *)
   m_falsy   : bool;   (* `if value:` precedes the assignment: a float 0.0 becomes NaN *)
+  m_gate    : bool;   (* outlier screening (iqr_measure: pct_iqr < thresh_iqr), not an association
+                         measure: used by the specification predicate of CheckC14 only *)
   m_thresh  : Z;      (* thresh_<measure> on the scale of the column *)
   m_sthresh : Z }.    (* the same threshold on the scale of the specification strength *)
 
@@ -85,7 +87,7 @@ Definition key (r : row) (j : nat) : Z := match cell_at r j with CVal z => z | _
 Definition col_exists (rows : list row) (j : nat) : bool :=
   existsb (fun r => negb (is_missing (cell_at r j))) rows.
 
-Definition dflt_m : mspec := mkM false false 0 0.
+Definition dflt_m : mspec := mkM false false false 0 0.
 
 (* evaluated_measure_names: reversed order of the requested measures *)
 Definition rank_cols (ms : list mspec) (rows : list row) : list nat :=
